@@ -147,6 +147,7 @@ def walk(n, path=()):
 def counts_real(n, lt):
     out = []
     for path, node in walk(n):
+        node.noisy_count()      # a node's released count is asked more than once in a synthesis (harvest, measures): the answer that is compared is a repeated one
         out.append(f"{'/'.join(map(str, path))} {node.noisy_count()} {1 if node.is_over_threshold(lt) else 0} {1 if node.is_stub_subnode() else 0}")
     return out
 
